@@ -237,11 +237,10 @@ class InterfaceLDM3:
         self.logging.debug(
             "Deleting provider data from application id %d", data_provider.application_id)
         if self.ldm_service.ldm_maintenance.data_containers.exists("dataObjectID", data_provider.data_object_id):
-            # Remove the stored object itself (the provider registry is not touched)
-            stored = self.ldm_service.ldm_maintenance.get_provider_data(
-                data_provider.data_object_id)
-            # Only the caller that actually removed the object reports success
-            if stored is not None and self.ldm_service.ldm_maintenance.del_provider_data(stored) is not False:
+            # Remove the stored object itself, by identifier (the provider registry is not
+            # touched); only the caller that actually removed the object reports success
+            if self.ldm_service.ldm_maintenance.del_provider_data_by_id(
+                    data_provider.data_object_id) is not False:
                 return DeleteDataProviderResp(
                     data_provider.application_id,
                     data_provider.data_object_id,
